@@ -232,14 +232,15 @@ fn one_upload_input(run: &Run, len: usize, pat: usize, tot: &mut UpTotals) {
                 }
                 // one chunk refused again and again: twice, as often as one `put_record` call tries (6), once more, for good
                 for which in [0, n - 1] {
-                    for times in [2usize, 6, 7, usize::MAX] {
+                    for times in if run.quick() { vec![6usize, usize::MAX] } else { vec![2usize, 6, 7, usize::MAX] } {
                         if !faults.contains(&Fault::ChunkRefused(which, times)) {
                             faults.push(Fault::ChunkRefused(which, times));
                         }
                     }
                 }
-                let bound = if n <= 4 { 1 } else { 0 };
                 for fault in faults {
+                    // (a chunk refused again and again multiplies the points at which puts wait: the quick tier takes these in FIFO order)
+                    let bound = if n <= 4 && !(run.quick() && matches!(fault, Fault::ChunkRefused(..))) { 1 } else { 0 };
                     run.case(format!("upload:{len}:{pat}:{public}:{fault:?}").as_bytes(), true);
                     let (execs, _, nodes) = explore_seq(bound, |ch| {
                         let (res, held, puts) = pool.install(|| upload(&data, &receipt, public, fault, ch));
